@@ -10,4 +10,7 @@ Definition cfg_source : cfg := mkCfg (negb src_clone_copies) src_bind_promotes s
 (* every store site of the evaluator promotes (and ArenaCow::promote copies), as theories/Mem.v assumes *)
 Definition source_discipline : bool :=
   src_var_read_clones && src_args_evaluated && src_clone_copies && src_clone_rebuilds && src_promote_rebuilds && src_bind_promotes && src_relocate_stages && src_relocate_arrays &&
-  src_stores_promote && src_promote_copies.
+  src_stores_promote && src_promote_copies &&
+  (* host records: every string stored inside a boxed builder / result is built in the persistent arena, because
+     HostHandle::promote looks at the handle only (strengthening round) *)
+  src_host_discipline.
